@@ -280,3 +280,32 @@ def stale_input(m, meta):
         U._tty_fd = saved
         os.close(master); os.close(slave)
     return {"reproduced": bool(problems), "input": "a pty with bytes queued before query_terminal() is called", "observed": [repr(p)[:300] for p in problems[:2]]}
+
+
+def queued_reply(m, meta):
+    """bytes the terminal sent before the reader switches the terminal mode (a reply that arrived at once) are still read: a pty whose
+    master side has already written the reply when read_tty() starts"""
+    import os, pty, time
+    import tests  # noqa: F401
+    from term_image import utils
+    master, slave = pty.openpty()
+    old_fd = utils._tty_fd
+    problems = []
+    try:
+        utils._tty_fd = slave
+        for mode in ("drain", "timed"):
+            reply = b"\x1b[?62;c"
+            os.write(master, reply)
+            time.sleep(0.05)
+            raw = utils.read_tty.__wrapped__ if hasattr(utils.read_tty, "__wrapped__") else utils.read_tty
+            try:
+                got = raw() if mode == "drain" else raw(lambda s: not s.endswith(b"c"), 0.3)
+            except Exception as e:  # noqa: BLE001
+                got = repr(e)
+            if got != reply:
+                problems.append({"mode": mode, "queued before the mode switch": repr(reply), "read": repr(got)})
+    finally:
+        utils._tty_fd = old_fd
+        os.close(master)
+        os.close(slave)
+    return {"reproduced": bool(problems), "input": problems}
